@@ -299,10 +299,12 @@ class World:
                 s.keep_only(a_objs if st.get("f1") else iter(a_objs))
             elif op == "keep_between":
                 kwds = {}
+                # f3: the milestones are given explicitly also when empty, and as one-shot
+                # iterables (any Iterable will do)
                 if a_objs or st.get("f3"):
-                    kwds["starts"] = a_objs
+                    kwds["starts"] = iter(a_objs) if st.get("f3") else a_objs
                 if b_objs or st.get("f3"):
-                    kwds["ends"] = b_objs
+                    kwds["ends"] = (x for x in b_objs) if st.get("f3") else b_objs
                 s.keep_only_between(keep_starts=st["f1"], keep_ends=st["f2"], **kwds)
             elif op == "query":
                 pass
